@@ -153,6 +153,10 @@ impl<T: RecognizerReadable> Decoder for ReconDecoder<T> {
     fn decode(&mut self, src: &mut bytes::BytesMut) -> Result<Option<Self::Item>, Self::Error> {
         self.decoder.decode(src)
     }
+
+    fn decode_eof(&mut self, src: &mut bytes::BytesMut) -> Result<Option<Self::Item>, Self::Error> {
+        self.decoder.decode_eof(src)
+    }
 }
 
 impl<T: RecognizerReadable> ReconDecoder<T> {
